@@ -230,6 +230,39 @@ def _enclosing_loops(ff, node):
     return out
 
 
+def _stable_flag(ff, text: str) -> bool:
+    """the guard is a bare local name that is assigned exactly once in the function (a flag computed up front)"""
+    if not text.isidentifier():
+        return False
+    n = 0
+    for st in ff.statements():
+        for t in (st.targets if isinstance(st, ast.Assign) else [st.target] if isinstance(st, (ast.AugAssign, ast.AnnAssign, ast.For)) else []):
+            for e in flatten_targets(t):
+                if isinstance(e, ast.Name) and e.id == text:
+                    n += 1
+    return n == 1 and text not in ff.fn.params
+
+
+def _must_transform(pm, fn: FuncInfo, depth: int) -> set[str]:
+    """receivers r such that every execution of fn calls r.transform / r.fit_transform (unguarded statements only;
+    self-helpers followed two levels)"""
+    out: set[str] = set()
+    ff = FuncFacts.of(fn)
+    ctx = None
+    for c in calls_in(fn):
+        if ff.guards(c):
+            continue
+        f = c.func
+        if isinstance(f, ast.Attribute) and f.attr in ("transform", "fit_transform") and not is_self_attr(f):
+            out.add(norm(f.value))
+        elif is_self_attr(f) and depth < 2:
+            ctx = ctx or Ctx(pm, fn)
+            for t in ctx.resolve_call(c):
+                if t.fn is not None and t.fn is not fn:
+                    out |= _must_transform(pm, t.fn, depth + 1)
+    return out
+
+
 def _precede(chk):
     pm = chk.pm
     prep = pm.cls("xeofs.preprocessing.preprocessor.Preprocessor")
@@ -254,6 +287,13 @@ def _precede(chk):
                 x for x in calls_in(fn)
                 if isinstance(x.func, ast.Attribute) and x.func.attr in ("transform", "fit_transform") and norm(x.func.value) == recv
             ]
+            # a private helper that unconditionally transforms with the same stage object counts as that call
+            for x in calls_in(fn):
+                if is_self_attr(x.func) and x not in cands:
+                    for t in ctx.resolve_call(x):
+                        if t.fn is not None and recv in _must_transform(pm, t.fn, 0):
+                            cands.append(x)
+                            break
             ok = False
             un = ff.cfg.node_for(c)
             for x in cands:
@@ -263,8 +303,8 @@ def _precede(chk):
                 if ff.cfg.dominates(xn, un) and xn != un:
                     ok = True
                 elif _guard_key(ff, x) <= _guard_key(ff, c) and x.lineno < c.lineno and all(
-                        " is not None" in t or " is None" in t for t, _ in _guard_key(ff, x)):
-                    ok = True  # correlated `if V is not None:` blocks
+                        " is not None" in t or " is None" in t or _stable_flag(ff, t) for t, _ in _guard_key(ff, x)):
+                    ok = True  # correlated `if V is not None:` / `if v_is_given:` blocks
                 else:
                     lx = [l for l in _enclosing_loops(ff, x) if not any(y is c for y in ast.walk(l))]
                     if lx:
